@@ -408,7 +408,11 @@ func runAll(runs []*Run, dir string) map[string][]*BatchResult {
 					sem <- struct{}{}
 				}
 				acqMu.Unlock()
+				tb := time.Now()
 				res := runBatch(r, b, dir)
+				if d := time.Since(tb).Seconds(); d > 30 {
+					logf("run %s batch %d took %.0fs (restarts %d)", r.Name, b, d, res.Restarts)
+				}
 				for k := 0; k < weight; k++ {
 					<-sem
 				}
